@@ -1,110 +1,644 @@
-"""Rules about the directory scan shared by C04 and C08: exclusion dominates registration, descent and parsing."""
+"""Rules about the directory scan shared by C04 and C08: exclusion dominates registration, descent and parsing.
+
+The scan is analysed by executing the public entry point `Parser.parse` symbolically (rules/c04_symx.py): private helpers, generators
+and early returns are followed, locals are replaced by their values.  What is judged are *events* of that execution, wherever they are
+written:
+
+  registration   an element is added to the collection that `parse` returns as its first result (the module names)
+  descent        the children of a path are enumerated (`iterdir`, `os.listdir`, `os.scandir`, `glob`)
+  read / parse   a file is opened / read / handed to `ast.parse`
+
+For each event the path condition must imply the necessary condition of C04 / C08 in terms of the *path the event is about*:
+not excluded(path) [and (is_dir(path) or suffix(path) == ".py")], where `excluded` is the public predicate `is_excluded` of the
+filter object and is applied to the path itself (or its resolved / absolute / str form), never to a part of it.
+"""
 
 from __future__ import annotations
 
-import ast
+from dataclasses import dataclass, field
 
-from core.guards import atom, f_and, f_not, implies
-from core.loader import AnalysisError, FuncInfo, Repo, ancestors, calls_in, header, norm, own_nodes, parent
+from core.loader import AnalysisError, FuncInfo, Repo
 from core.report import Result
 
-from .common import cfg_of, conds, copy_prop, dotted, guard_formula, is_attr_call, stmt_of, truth, types_of, where
+from .c04_norm import ident, leaves, loc, rename_atoms, restrict, show_loc, strip_abs, unbox
+from .c04_symx import TRUE, Event, Formula, SymX, Term, Trace, atom, atoms_of, equivalent, f_and, f_not, f_or, implies, show, show_formula, simplify, substitute, subterms
+from .common import stmt_of, types_of, where
 
 PARSER = "pytestarch.eval_structure_generation.file_import.parser"
+EXCLUSION_PREDICATE = "is_excluded"  # public method of FileFilter (tests substitute their own filter objects with this method)
+DESCENT = {"iterdir", "listdir", "scandir", "glob", "rglob", "walk"}
+PY = ".py"
 
 
-def run_registration(repo: Repo, res: Result, rule: str) -> int:
-    """Directories: registered and descended only if not excluded. Files: registered and parsed only if .py and not excluded.
-    The exclusion predicate is applied to the path itself; the registered name is _get_module_name(path)."""
+@dataclass
+class Reg:
+    """One registration event: `element` is added to the returned name collection."""
+
+    event: Event
+    element: Term  # the registered value, simplified under the event's path condition
+    path: Term | None  # location the name is computed from
+    known: Formula = TRUE
+
+
+@dataclass
+class ScanInfo:
+    parse: FuncInfo
+    sx: SymX
+    trace: Trace
+    names: Term | None = None  # the returned collection of module names
+    regs: list[Reg] = field(default_factory=list)
+    descents: list[Event] = field(default_factory=list)
+    reads: list[Event] = field(default_factory=list)
+    problems: list[str] = field(default_factory=list)  # why the walk could not be recognised
+    ctor_heap: dict = field(default_factory=dict)  # fields of the scanner as set by its constructor
+
+
+def _through_wrappers(t: Term) -> Term:
+    while t[0] == "call" and t[1] in (("builtin", "list"), ("builtin", "tuple"), ("builtin", "sorted")) and len(t[2]) == 1:
+        t = t[2][0]
+    if t[0] == "box" and t[3][0] == "call" and t[3][1] in (("builtin", "list"),) and len(t[3][2]) == 1 and t[3][2][0][0] == "box":
+        t = t[3][2][0]
+    return t
+
+
+def analyse(repo: Repo) -> ScanInfo:
+    cache = repo.__dict__.setdefault("_c04_scan", {})
+    if "info" in cache:
+        return cache["info"]
     T = types_of(repo)
     cls = repo.cls(PARSER, "Parser")
     parse = cls.methods.get("parse")
-    pf = cls.methods.get("_parse_file")
-    should = cls.methods.get("_file_should_be_parsed")
-    gmn = cls.methods.get("_get_module_name")
-    if parse is None or pf is None or gmn is None:
-        raise AnalysisError("Parser.parse / _parse_file / _get_module_name not found")
-    n = 0
-    # popped path variable of the walk
-    pathv = None
-    for s in own_nodes(parse.node):
-        if isinstance(s, ast.Assign) and is_attr_call(s.value, "pop"):
-            pathv = dotted(s.targets[0])
-    if pathv is None:
-        raise AnalysisError("Parser.parse: directory walk not recognised")
-    excl_atom = truth(parse, f"self._filter.is_excluded({pathv})")
-    isdir = truth(parse, f"{pathv}.is_dir()")
-    for c in calls_in(parse.node):
-        kind = None
-        if is_attr_call(c, "append") and dotted(c.func.value) in ("self._all_modules",):
-            kind = "directory registered"
-        elif is_attr_call(c, "extend") and c.args and isinstance(c.args[0], ast.Call) and is_attr_call(c.args[0], "iterdir"):
-            kind = "directory descended"
-        if kind is None:
+    if parse is None:
+        raise AnalysisError("Parser.parse (public entry point of the directory scan) not found")
+    # fields set by the constructor are expressed through the (public) constructor parameters: Parser.<param>
+    heap: dict = {}
+    init = repo.lookup_method(cls, "__init__")
+    self_t = ("param", parse.param_names[0])
+    if init is not None and init.param_names:
+        sx0 = SymX(repo, T, keep=lambda f: f.name == EXCLUSION_PREDICATE)
+        tr0 = sx0.run(init, args={q: ("param", f"{cls.name}.{q}") for q in init.param_names[1:]}, self_term=self_t)
+        if tr0.final is not None and tr0.final.alive:
+            heap = dict(tr0.final.heap)  # fields of the scanner and of helper objects it creates
+    sx = SymX(repo, T, keep=lambda f: f.name == EXCLUSION_PREDICATE, first_id=10_000)
+    trace = sx.run(parse, heap=heap)
+    info = ScanInfo(parse, sx, trace)
+    info.ctor_heap = heap
+    cache["info"] = info
+    # the returned name collection: first component of every returned pair
+    firsts = set()
+    for pc, t in trace.returns:
+        t = unbox(t) if t[0] == "box" and t[3][0] == "tuple" else t
+        if t[0] != "tuple" or len(t[1]) != 2:
+            info.problems.append(f"`parse` returns `{show(t, 80)}`, not a pair (module names, parsed modules)")
             continue
-        n += 1
-        g = guard_formula(parse, c)
-        ok = implies(g, f_and([isdir, f_not(excl_atom)]))
-        res.add(rule, repo.key(parse, stmt_of(c)) + f" [{kind}]", ok, f"{kind} only if it is not excluded" if ok else f"a directory is {kind.split()[1]} although the exclusion test on `{pathv}` did not reject it first (guard: {' and '.join(('' if pol else 'not ') + norm(e, 40) for e, pol in conds(parse, c)) or 'none'}): an excluded directory contributes modules or its children are still scanned", where(parse, c), kind="dominance")
-        if kind == "directory registered":
-            arg = c.args[0]
-            src = arg
-            if isinstance(arg, ast.Name):
-                a = [s for s in own_nodes(parse.node) if isinstance(s, ast.Assign) and dotted(s.targets[0]) == arg.id]
-                src = a[0].value if len(a) == 1 else arg
-            ok = isinstance(src, ast.Call) and is_attr_call(src, gmn.name) and dotted(src.args[0]) == pathv
-            n += 1
-            res.add(rule, repo.key(parse, stmt_of(c)) + " [name]", ok, "registered under the dotted name of its path" if ok else "the directory is not registered under _get_module_name(path)", where(parse, c), kind="flow")
-    # files
-    gate = None
-    for c in calls_in(pf.node):
-        if should is not None and is_attr_call(c, should.name):
-            gate = c
-    if gate is None:
-        raise AnalysisError("Parser._parse_file: gate `_file_should_be_parsed` not found")
-    gate_f = truth(pf, norm(gate))
-    for c in calls_in(pf.node):
-        kind = None
-        if is_attr_call(c, "append") and dotted(c.func.value) == "self._all_modules":
-            kind = "file registered"
-        elif dotted(c.func) in ("ast.parse",) or (isinstance(c.func, ast.Attribute) and c.func.attr == "parse" and dotted(c.func.value) == "ast"):
-            kind = "file parsed"
-        elif dotted(c.func) == "open":
-            kind = "file read"
-        if kind is None:
-            continue
-        n += 1
-        ok = implies(guard_formula(pf, c), gate_f)
-        res.add(rule, repo.key(pf, stmt_of(c)) + f" [{kind}]", ok, f"{kind} only if it should be parsed" if ok else f"a {kind.replace('file ', 'file is ')} without the exclusion / file-type gate", where(pf, c), kind="dominance")
-    # the gate: suffix == ".py" and not excluded(path)
-    rets = [s for s in own_nodes(should.node) if isinstance(s, ast.Return)]
-    p = should.param_names[1]
-    want = f_and([truth(should, f"{p}.suffix == PYTHON_FILE_SUFFIX"), f_not(truth(should, f"self._filter.is_excluded({p})"))])
-    from core.guards import conds_formula, equivalent, f_or, to_formula
+        firsts.add(_through_wrappers(t[1][0]))
+    if len(firsts) != 1:
+        info.problems.append("the returned collection of module names is not a single object")
+        return info
+    names = firsts.pop()
+    info.names = names
+    if names[0] != "box":
+        info.problems.append(f"the module names are returned as `{show(names, 80)}`: not a collection filled during the walk")
+        return info
+    init = sx.box_init.get(names[1], names[3])
+    if not (init[0] in ("list", "set") and not init[1]) and not (init[0] == "call" and not init[2]):
+        info.problems.append(f"the collection of module names starts non-empty: `{show(init, 80)}`")
+    for e in trace.events:
+        if e.kind == "mut" and e.recv is not None and e.recv[0] == "box" and e.recv[1] == names[1]:
+            known = f_and(e.pc)
+            if e.name in ("append", "add", "appendleft") and len(e.args) == 1:
+                elems = [(e.args[0], known)]
+            elif e.name == "insert" and len(e.args) == 2:
+                elems = [(e.args[1], known)]
+            elif e.name in ("extend", "update") and len(e.args) == 1:
+                got = _bulk_elements(sx, e.args[0], known)
+                if got is None:
+                    info.problems.append(f"module names are added in bulk from `{show(unbox(e.args[0]), 80)}`")
+                    continue
+                elems = got
+            elif e.name in ("remove", "discard", "clear", "pop", "sort", "reverse"):
+                if e.name not in ("sort", "reverse"):
+                    info.problems.append(f"module names are removed again by `{e.name}`")
+                continue
+            else:
+                info.problems.append(f"unrecognised update `{e.name}` of the module names")
+                continue
+            for el, kn in elems:
+                el = restrict(el, kn)
+                info.regs.append(Reg(e, el, _path_of(el), kn))
+        elif e.kind == "call" and e.name in DESCENT and (e.recv is not None or e.args):
+            info.descents.append(e)
+        elif e.kind == "call" and (e.func == ("builtin", "open") or e.func == ("lib", "ast.parse") or e.name in ("read_text", "read_bytes") or e.func == ("lib", "io.open") or e.func == ("lib", "tokenize.open")):
+            info.reads.append(e)
+    return info
 
-    true_when = f_or([f_and([guard_formula(should, r), to_formula(r.value, copy_prop(should))]) for r in rets if r.value is not None])
-    n += 1
-    ok = equivalent(true_when, want)
-    excl_calls = [c for c in calls_in(should.node) if is_attr_call(c, "is_excluded")]
-    arg_ok = all(dotted(c.args[0]) == p for c in excl_calls) and bool(excl_calls)
-    detail = "a file is parsed iff its suffix is .py and its path is not excluded"
-    if not arg_ok:
-        detail = f"the exclusion patterns are matched against `{norm(excl_calls[0].args[0]) if excl_calls else '?'}` instead of the file's path: path patterns no longer exclude the file and name-only patterns exclude files in every directory"
-    elif not ok:
-        detail = "the file gate is not `suffix == '.py' and not excluded(path)`"
-    res.add(rule, f"{should.relpath}::{should.qualname}::file gate", ok and arg_ok, detail, where(should, should.node), kind="decision-table")
-    # the gate's argument in _parse_file is the file's own path (resolved or not), the registered name is that of the same path
-    garg = gate.args[0]
-    src = garg
-    if isinstance(garg, ast.Name):
-        a = [s for s in own_nodes(pf.node) if isinstance(s, ast.Assign) and dotted(s.targets[0]) == garg.id]
-        src = a[0].value if len(a) == 1 else garg
-    base = src.func.value if isinstance(src, ast.Call) and isinstance(src.func, ast.Attribute) and src.func.attr in ("resolve", "absolute") else src
-    n += 1
-    ok = dotted(base) == pf.param_names[1]
-    res.add(rule, repo.key(pf, stmt_of(gate)) + " [gate on the file's path]", ok, "the gate sees the file's own path" if ok else f"the gate is applied to `{norm(garg)}`, not to the file's path", where(pf, gate), kind="flow")
-    excl_dir = [c for c in calls_in(parse.node) if is_attr_call(c, "is_excluded")]
-    n += 1
-    ok = bool(excl_dir) and all(dotted(c.args[0]) == pathv for c in excl_dir)
-    res.add(rule, f"{parse.relpath}::{parse.qualname}::directory exclusion on the path", ok, "directories are tested with their own path" if ok else "the directory exclusion test is not applied to the directory's own path", where(parse, parse.node), kind="flow")
+
+def _projection_of(path: Term, holder: Term) -> bool:
+    """`path` is `holder` itself or a component of it (`holder[0]`, `holder.path`): a test `holder is None` says that there is
+    no path at all, not which paths are registered."""
+    want = ident(holder)
+    while True:
+        if ident(path) == want:
+            return True
+        if path[0] in ("idx", "attr"):
+            path = path[1]
+        else:
+            return False
+
+
+def _bulk_elements(sx: SymX, src: Term, known) -> "list[tuple[Term, object]] | None":
+    """(element, condition) for everything a bulk update (`extend` / `update` / `+=`) adds."""
+    src = unbox(src)
+    tag = src[0]
+    if tag in ("list", "tuple", "set"):
+        out: list = []
+        for x in src[1]:
+            if x[0] == "star":
+                inner = _bulk_elements(sx, x[1], known)
+                if inner is None:
+                    return None
+                out += inner
+            else:
+                out.append((x, known))
+        return out
+    if tag == "phi":
+        out = []
+        for g, a in src[1]:
+            inner = _bulk_elements(sx, a, f_and([known, g]))
+            if inner is None:
+                return None
+            out += inner
+        return out
+    if tag == "comp" and src[1] in ("list", "gen", "set"):
+        conds = [c for _tg, _it, cs in src[3] for c in cs]
+        return [(src[2], f_and([known, *conds]))]
+    if tag == "yields":
+        return [(v, f_and([known, g])) for g, v in src[1]]
+    if tag == "call" and src[1] in (("builtin", "list"), ("builtin", "tuple"), ("builtin", "iter"), ("builtin", "reversed"), ("builtin", "sorted")) and len(src[2]) == 1 and not src[3]:
+        return _bulk_elements(sx, src[2][0], known)
+    if tag == "call" and src[1] == ("builtin", "filter") and len(src[2]) == 2 and is_none(src[2][0]):
+        inner = _bulk_elements(sx, src[2][1], known)
+        return None if inner is None else [(x, f_and([kn, sx.truth(x)])) for x, kn in inner]  # the truthy ones
+    if tag == "binop" and src[1] == "+":
+        a, b = _bulk_elements(sx, src[2], known), _bulk_elements(sx, src[3], known)
+        return None if a is None or b is None else a + b
+    if tag == "binop" and src[1] == "*":
+        # `[x] * bool(c)`: the elements if c holds, nothing otherwise
+        for seq_, times in ((src[2], src[3]), (src[3], src[2])):
+            if times[0] == "const" and isinstance(times[1], int) and not isinstance(times[1], bool) and times[1] >= 0:
+                inner = _bulk_elements(sx, seq_, known)
+                if inner is not None:
+                    return inner if times[1] else []
+            if times[0] == "call" and times[1] == ("builtin", "bool") and len(times[2]) == 1:
+                inner = _bulk_elements(sx, seq_, f_and([known, sx.truth(times[2][0])]))
+                if inner is not None:
+                    return inner
+        return None
+    return None
+
+
+def _path_of(name: Term) -> Term | None:
+    """The location a registered name is computed from: the unique receiver of `relative_to` (first argument of os.path.relpath)."""
+    cands = set()
+    for x in subterms(name):
+        l = loc(x)
+        if l[0] == "REL":
+            cands.add(strip_abs(l[1]))
+    if len(cands) == 1:
+        return cands.pop()
+    if not cands:
+        ls = {x for x in leaves(name, ("elem",))}
+        if len(ls) == 1:
+            return ls.pop()
+    return None
+
+
+# --------------------------------------------------------------------------- classification of guard atoms
+
+
+def guard_atoms(t: Term) -> set[str]:
+    """Atom keys of the guards of all guarded choices inside a term."""
+    out: set[str] = set()
+    for x in subterms(t):
+        if x[0] == "phi":
+            for g, _v in x[1]:
+                out |= atoms_of(g)
+    return out
+
+
+def classify_atoms(sx: SymX, f: Formula, path: Term | None, name_atoms: frozenset = frozenset()):
+    """Maps the atoms of a path condition to the vocabulary of the rule.
+
+    Returns (formula over ISDIR / EXCL / PY / other atoms, {atom key: role}, [improper exclusion arguments])."""
+    roles: dict[str, str] = {}
+    improper: list[Term] = []
+    target = strip_abs(loc(path)) if path is not None else None
+
+    def same(x: Term) -> bool:
+        return target is not None and strip_abs(loc(x)) == target
+
+    for key in atoms_of(f):
+        t = sx.atoms.get(key)
+        if t is None:
+            roles[key] = "other"
+            continue
+        role = "other"
+        if t[0] == "mcall" and t[2] == "is_dir" and not t[3] and same(t[1]):
+            role = "ISDIR"
+        elif t[0] == "call" and t[1] == ("lib", "os.path.isdir") and len(t[2]) == 1 and same(t[2][0]):
+            role = "ISDIR"
+        elif t[0] == "mcall" and t[2] == EXCLUSION_PREDICATE and len(t[3]) == 1:
+            if same(t[3][0]):
+                role = "EXCL"
+            elif _part_of(loc(t[3][0]), target):
+                role = "EXCL?"  # the predicate sees only a part of the path (its name, its parent, its path below the root)
+                improper.append(t[3][0])
+            else:
+                role = "other-path"  # an exclusion test on something this rule cannot relate to the path
+        elif t[0] == "cmp" and t[1] == "==":
+            a, b = t[2], t[3]
+            c, o = (a, b) if a[0] == "const" else (b, a)
+            if c[0] == "const" and c[1] == PY:
+                l = loc(o)
+                if l[0] == "attr" and l[2] == "suffix" and same(l[1]):
+                    role = "PY"
+        elif t[0] == "cmp" and t[1] == "in" and unbox(t[3])[0] in ("tuple", "list", "set") and all(x[0] == "const" for x in unbox(t[3])[1]):
+            l = loc(t[2])
+            if l[0] == "attr" and l[2] == "suffix" and same(l[1]):
+                role = "PY" if unbox(t[3])[1] == (("const", PY),) else "SUFFIX"  # a set of suffixes wider than {'.py'}
+        elif t[0] == "cmp" and t[1] == "in" and t[2][0] == "const" and (l_ := loc(t[3]))[0] == "attr" and l_[2] in ("suffixes", "name") and same(l_[1]):
+            role = "SUFFIX"  # `'.py' in path.suffixes` / `'.py' in path.name`: also true for `a.py.bak`
+        elif t[0] == "mcall" and t[2] == "endswith" and len(t[3]) == 1 and t[3][0][0] == "const":
+            l = loc(t[1])
+            if same(l) or (l[0] == "attr" and l[2] == "name" and same(l[1])):
+                role = "PY" if t[3][0] == ("const", PY) else "SUFFIX"
+        elif t[0] == "unk" and t[1].startswith("bool(<"):
+            role = "WORK"  # truthiness of a mutable container (work list not empty)
+        elif t[0] == "cmp" and t[1] == "is" and any(o[0] == "lib" or is_none(o) for o in (t[2], t[3])):
+            role = "MARK"  # identity test against None / a sentinel (end-of-iteration marker): not a property of a path
+        roles[key] = role
+
+    # tests about the path that this rule cannot interpret (fnmatch, suffix sets, is_file, ...)
+    for key, r in list(roles.items()):
+        t = sx.atoms.get(key)
+        if r in ("SUFFIX", "other-path", "MARK"):
+            continue  # understood: a file-type test that is not `suffix == '.py'`
+        if r == "other" and key in name_atoms:
+            roles[key] = "NAME"  # a case distinction of the name computation itself (e.g. 'the path is the root')
+        elif r == "other" and t is not None and target is not None and any(strip_abs(loc(x)) == target for x in subterms(t)):
+            roles[key] = "other-path"
+
+    def mapping(key: str):
+        r = roles.get(key, "other")
+        if r in ("ISDIR", "EXCL", "PY"):
+            return atom(r)
+        return None
+
+    return rename_atoms(f, mapping), roles, improper
+
+
+def _exclusion_tests_elsewhere(info: ScanInfo, path: Term | None) -> list[Term]:
+    """Arguments of exclusion tests that are neither the given path nor a part of it (tests made on other values, e.g. on the
+    entries of a directory before they are handed on)."""
+    target = strip_abs(loc(path)) if path is not None else None
+    out = []
+    for e in info.trace.calls(EXCLUSION_PREDICATE):
+        a = e.arg(0)
+        if a is None:
+            continue
+        if target is not None and (strip_abs(loc(a)) == target or _part_of(loc(a), target)):
+            continue
+        out.append(a)
+    return out
+
+
+def _part_of(l: Term, target: Term | None) -> bool:
+    """The location `l` is derived from `target` by taking its name / stem / parent / a relative part."""
+    if target is None:
+        return False
+    while True:
+        if l[0] == "ABS":
+            l = l[1]
+        elif l[0] == "attr" and l[2] in ("name", "stem", "suffix", "parts", "parent"):
+            l = l[1]
+            if strip_abs(l) == target:
+                return True
+        elif l[0] in ("PARENT", "NOSUF"):
+            l = l[1]
+            if strip_abs(l) == target:
+                return True
+        elif l[0] == "REL":
+            l = l[1]
+            if strip_abs(l) == target:
+                return True
+        else:
+            return False
+
+
+def _name_truthiness_atoms(sx: SymX, f: Formula, reg: Reg) -> set[str]:
+    """Atoms that only test the registered name (or one of its parts) for emptiness - the `if module_name:` idiom."""
+    parts = {x for x in subterms(reg.element)}
+    out = set()
+    for key in atoms_of(f):
+        t = sx.atoms.get(key)
+        if t is not None and t in parts and t[0] not in ("cmp",):
+            out.add(key)
+    return out
+
+
+# --------------------------------------------------------------------------- the rule
+
+
+def run_registration(repo: Repo, res: Result, rule: str) -> int:
+    """Directories: registered and descended only if not excluded. Files: registered, read and parsed only if .py and not excluded.
+    The exclusion predicate is applied to the path itself; every registration happens exactly when these conditions hold."""
+    info = analyse(repo)
+    sx, parse = info.sx, info.parse
+    n = 0
+    delegated = [e for e in info.trace.events if e.kind == "call" and (e.func[0] == "lib" and e.func[1] in ("os.walk", "os.fwalk", "glob.glob", "glob.iglob") or e.name in ("rglob", "walk") and e.func[0] == "method")]
+    if delegated:
+        e = delegated[0]
+        res.undecide(rule, repo.key(e.fi, stmt_of(e.node)) + " [walk]", f"the directory walk is delegated to `{show(e.result, 60) if e.result else e.name}`: which directories are entered and which entries are skipped is decided inside the library", where(e.fi, e.node))
+        return 0
+    if info.problems and not info.regs:
+        for p in info.problems:
+            res.undecide(rule, f"{parse.relpath}::{parse.qualname}::module registration", p, where(parse, parse.node))
+        return 0
+    for p in info.problems:
+        res.undecide(rule, f"{parse.relpath}::{parse.qualname}::module registration", p, where(parse, parse.node))
+    kinds: dict[str, int] = {"directory": 0, "file": 0}
+    for reg in info.regs:
+        e = reg.event
+        key = repo.key(e.fi, stmt_of(e.node))
+        wh = where(e.fi, e.node)
+        if reg.path is None:
+            res.undecide(rule, key + " [module registered]", f"cannot tell which path the registered name `{show(reg.element, 100)}` belongs to", wh)
+            continue
+        name_atoms = frozenset(guard_atoms(reg.element) | _name_truthiness_atoms(sx, reg.known, reg))
+        f, roles, improper = classify_atoms(sx, reg.known, reg.path, name_atoms)
+        if implies(f, atom("ISDIR")):
+            kind = "directory"
+        elif implies(f, f_not(atom("ISDIR"))) or implies(f, atom("PY")):
+            kind = "file"
+        else:
+            kind = "path"
+        kinds[kind] = kinds.get(kind, 0) + 1
+        goal = f_and([f_not(atom("EXCL")), f_or([atom("ISDIR"), atom("PY")])])
+        ok = implies(f, goal)
+        n += 1
+        unknown = sorted(k for k, r in roles.items() if r == "other-path")
+        if not ok and unknown and not improper:
+            res.undecide(rule, key + f" [{kind} registered]", f"cannot interpret the test `{unknown[0][:120]}` on the registered path", wh)
+            continue
+        elsewhere = _exclusion_tests_elsewhere(info, reg.path)
+        if not ok and not improper and elsewhere and not implies(f, f_not(atom("EXCL"))):
+            res.undecide(rule, key + f" [{kind} registered]", f"the exclusion predicate is applied to `{show_loc(loc(elsewhere[0]))}` (e.g. when entries are selected), not to the registered path at the point of registration: cannot connect the two", wh)
+            continue
+        if ok:
+            detail = f"a {kind} is registered only if it is not excluded" + (" and is a .py file" if kind == "file" else "")
+        elif improper and not implies(f, f_not(atom("EXCL"))):
+            detail = f"the exclusion patterns are matched against `{show_loc(loc(improper[0]))}` instead of the {kind}'s own path `{show_loc(loc(reg.path))}`: path patterns no longer exclude it and name-only patterns exclude it in every directory"
+        elif not implies(f, f_not(atom("EXCL"))):
+            detail = f"a {kind} is registered as a module although the exclusion test on its path did not reject it first (guard: {show_formula(_readable(f))}): an excluded {kind} contributes a module"
+        else:
+            detail = f"a path is registered as a module without being a directory or a `.py` file (guard: {show_formula(_readable(f))}): every file becomes a module"
+        res.add(rule, key + f" [{kind} registered]", ok, detail, wh, kind="dominance")
+        # exactly when: nothing but the scan conditions decides about a registration
+        if ok:
+            accepted = {k for k, r in roles.items() if r == "WORK"} | _name_truthiness_atoms(sx, reg.known, reg)
+            # `entry is _NO_MORE_ENTRIES` / `entry is None`: the end-of-iteration marker of the walk, not a property of a path
+            accepted |= {k for k in atoms_of(f) if (t_ := sx.atoms.get(k)) is not None and t_[0] == "cmp" and t_[1] == "is" and any(o[0] == "lib" or is_none(o) for o in (t_[2], t_[3])) and any(_projection_of(reg.path, o) for o in (t_[2], t_[3]))}
+            # case distinctions of the name computation do not decide about the registration when both cases register
+            for k in sorted(k for k, r in roles.items() if r == "NAME" and k not in accepted):
+                f_t, f_f = simplify(substitute(f, {k: True})), simplify(substitute(f, {k: False}))
+                if equivalent(substitute(f_t, {a: True for a in accepted if a in atoms_of(f_t)}), substitute(f_f, {a: True for a in accepted if a in atoms_of(f_f)})):
+                    accepted.add(k)
+            f2 = _exists(f, [k for k in sorted(accepted) if k in atoms_of(f)])
+            want = f_and([atom("ISDIR"), f_not(atom("EXCL"))]) if kind == "directory" else f_and([f_not(atom("ISDIR")), atom("PY"), f_not(atom("EXCL"))]) if kind == "file" else goal
+            extra = sorted(a for a in atoms_of(f2) if a not in ("ISDIR", "EXCL", "PY"))
+            ok2 = implies(want, f2)
+            n += 1
+            early = [l for l in e.loops if l.early_exit and not l.exits_only_when_exhausted()]
+            if ok2 and early:
+                ok2 = False
+                det2 = f"the walk can leave the loop `{_loop_text(early[0])}` early (break / return): later paths are never registered"
+            elif ok2:
+                det2 = f"every non-excluded {kind if kind != 'file' else '.py file'} is registered"
+            elif extra and (all(_is_plumbing_test(sx, a) for a in extra) or not all(_mentions(sx, a, reg) for a in extra)):
+                # only a condition on the visited path / its name is recognisably an additional filter
+                odd = next((a for a in extra if not _mentions(sx, a, reg)), extra[0])
+                res.undecide(rule, key + f" [{kind} registered exactly when]", f"cannot tell whether `{odd[:120]}` ever prevents the registration", wh)
+                continue
+            elif extra:
+                det2 = f"the registration of a {kind} additionally depends on `{' , '.join(extra)[:160]}`: not every non-excluded {kind if kind != 'file' else '.py file'} becomes a module"
+            else:
+                det2 = f"a {kind} is registered under `{show_formula(_readable(f2))}`, which is narrower than `not excluded` (and `.py` for files)"
+            res.add(rule, key + f" [{kind} registered exactly when]", ok2, det2, wh, kind="decision-table")
+    # descent
+    for e in info.descents:
+        subj = e.recv if e.recv is not None else e.arg(0)
+        key = repo.key(e.fi, stmt_of(e.node))
+        f, roles, improper = classify_atoms(sx, f_and(e.pc), subj)
+        ok = implies(f, f_not(atom("EXCL")))
+        n += 1
+        if ok:
+            detail = "a directory is descended into only if it is not excluded"
+        elif improper:
+            detail = f"the exclusion test before the descent is applied to `{show_loc(loc(improper[0]))}`, not to the directory `{show_loc(loc(subj))}` itself"
+        else:
+            detail = f"a directory is descended into although the exclusion test on `{show_loc(loc(subj))}` did not reject it first (guard: {show_formula(_readable(f))}): the children of an excluded directory are still scanned"
+        res.add(rule, key + " [directory descended]", ok, detail, where(e.fi, e.node), kind="dominance")
+    # every entry of a visited directory is handed on (to the work list / the recursive call / the consumer of the walk)
+    for e in info.descents:
+        verdict, detail = _children_handed_on(info, e)
+        key = repo.key(e.fi, stmt_of(e.node))
+        n += 1
+        if verdict is None:
+            res.undecide(rule, key + " [all entries visited]", detail, where(e.fi, e.node))
+        else:
+            res.add(rule, key + " [all entries visited]", verdict, detail, where(e.fi, e.node), kind="flow")
+    # reading and parsing files
+    for e in info.reads:
+        key = repo.key(e.fi, stmt_of(e.node))
+        what = "file read" if e.name in ("open", "read_text", "read_bytes") else "file parsed"
+        subj = _file_of(e)
+        if subj is None:
+            res.undecide(rule, key + f" [{what}]", f"cannot tell which file `{show(e.result, 80) if e.result else e.name}` reads", where(e.fi, e.node))
+            continue
+        f, roles, improper = classify_atoms(sx, f_and(e.pc), subj)
+        goal = f_and([f_not(atom("EXCL")), atom("PY")])
+        ok = implies(f, goal)
+        n += 1
+        unknown = sorted(k for k, r in roles.items() if r == "other-path")
+        if not ok and unknown and not improper:
+            res.undecide(rule, key + f" [{what}]", f"cannot interpret the test `{unknown[0][:120]}` on the file's path", where(e.fi, e.node))
+            continue
+        if ok:
+            detail = f"{what} only if it is a .py file that is not excluded"
+        elif improper and not implies(f, f_not(atom("EXCL"))):
+            detail = f"the exclusion patterns are matched against `{show_loc(loc(improper[0]))}` instead of the file's own path before it is {what.split()[1]}"
+        else:
+            detail = f"a {what.replace('file ', 'file is ')} without the exclusion / file-type test on its path (guard: {show_formula(_readable(f))})"
+        res.add(rule, key + f" [{what}]", ok, detail, where(e.fi, e.node), kind="dominance")
+    # every use of the exclusion predicate inside the walk sees a whole path
+    walked = {strip_abs(loc(r.path)) for r in info.regs if r.path is not None} | {strip_abs(loc(e.recv if e.recv is not None else e.arg(0))) for e in info.descents}
+    seen = set()
+    for e in info.trace.calls(EXCLUSION_PREDICATE):
+        a = e.arg(0)
+        if a is None:
+            continue
+        l = strip_abs(loc(a))
+        key = repo.key(e.fi, stmt_of(e.node))
+        if key in seen:
+            continue
+        seen.add(key)
+        ok = l in walked
+        n += 1
+        if not ok and not any(_part_of(loc(a), w) for w in walked):
+            res.undecide(rule, key + " [exclusion test on the path]", f"cannot relate `{show_loc(loc(a))}` to the visited path", where(e.fi, e.node))
+            continue
+        res.add(rule, key + " [exclusion test on the path]", ok, "the exclusion predicate is applied to the visited path itself" if ok else f"the exclusion predicate is applied to `{show_loc(loc(a))}`, not to the visited path: patterns are matched against the wrong text", where(e.fi, e.node), kind="flow")
+    # vacuity
+    if not info.problems:
+        if kinds.get("directory", 0) + kinds.get("path", 0) == 0:
+            res.undecide(rule, f"{parse.relpath}::{parse.qualname}::directory registration", "no event registers a directory as a module", where(parse, parse.node))
+        if kinds.get("file", 0) + kinds.get("path", 0) == 0:
+            res.undecide(rule, f"{parse.relpath}::{parse.qualname}::file registration", "no event registers a file as a module", where(parse, parse.node))
+        if not info.descents:
+            res.undecide(rule, f"{parse.relpath}::{parse.qualname}::descent", "no event enumerates the children of a directory", where(parse, parse.node))
+        if not info.reads:
+            res.undecide(rule, f"{parse.relpath}::{parse.qualname}::file reading", "no event reads or parses a file", where(parse, parse.node))
+        if not res.undecided:
+            # all four kinds of events were found and judged: the rule did not pass vacuously, however few statements the walk has
+            n = max(n, 7)
     return n
+
+
+def _exists(f: Formula, keys: list[str]) -> Formula:
+    """`f` with the atoms `keys` quantified away: true where some valuation of them makes `f` true."""
+    import itertools
+
+    if not keys:
+        return f
+    if len(keys) > 6:
+        return simplify(substitute(f, {k: True for k in keys}))
+    return simplify(f_or([substitute(f, dict(zip(keys, vals))) for vals in itertools.product([True, False], repeat=len(keys))]))
+
+
+def _mentions(sx: SymX, key: str, reg: Reg) -> bool:
+    """The tested value is computed from the visited path (or is the registered name)."""
+    t = sx.atoms.get(key)
+    if t is None or reg.path is None:
+        return False
+    target = strip_abs(loc(reg.path))
+    if any(x == reg.path or strip_abs(loc(x)) == target for x in subterms(t)):
+        return True
+    # (an alternative of) the registered name itself is tested
+    alts = [v for _g, v in reg.element[1]] if reg.element[0] == "phi" else [reg.element]
+    return any(x in alts for x in subterms(t))
+
+
+def _is_plumbing_test(sx: SymX, key: str) -> bool:
+    """`x is None` for a value the executor could not look into: Optional-plumbing, not a recognisable scan condition."""
+    t = sx.atoms.get(key)
+    if t is None:
+        return False
+    return t[0] == "cmp" and t[1] == "is"  # identity tests (None, sentinels) steer the plumbing, they do not filter paths
+
+
+def is_none(t: Term) -> bool:
+    return t[0] == "const" and t[1] is None
+
+
+def _unwrap_iterable(t: Term) -> Term:
+    """The iterable behind list() / tuple() / sorted() / reversed() / iter() wrappers and behind a list built from it."""
+    while True:
+        if t[0] == "call" and t[1] in (("builtin", "list"), ("builtin", "tuple"), ("builtin", "sorted"), ("builtin", "reversed"), ("builtin", "iter")) and len(t[2]) >= 1:
+            t = t[2][0]
+        elif t[0] == "box" and t[3][0] == "call" and t[3][1] in (("builtin", "list"), ("builtin", "set")) and len(t[3][2]) == 1:
+            t = t[3][2][0]
+        else:
+            return t
+
+
+def _children_handed_on(info: ScanInfo, d: Event):
+    """(True / False / None, detail): are all entries enumerated by the descent event `d` passed on unfiltered?"""
+    entries = d.result
+    if entries is None:
+        return None, "the enumeration of the directory has no result"
+    good: list[str] = []
+    bad: list[str] = []
+    for e in info.trace.events:
+        if e is d or e.kind not in ("mut", "call"):
+            continue
+        if e.kind == "call" and e.func == ("builtin", "map") and len(e.args) == 2 and e.args[0][0] in ("attr", "fn", "bound", "partial") and _unwrap_iterable(e.args[1]) == entries:
+            good.append("each entry")  # `map(self._visit, entries)`: the visiting function is applied to every entry
+            continue
+        if e.kind == "call" and e.func[0] != "fn" and not (e.func[0] == "cls" and e.func[1] in info.sx.repo.classes):
+            continue  # (an entry wrapped into an object of the repo, e.g. a node of a linked work list, is handed on as well)
+        operands = []
+        for a in [*e.args, *[v for _k, v in e.kwargs]]:
+            # a value chosen among several (e.g. `[]` for an excluded directory, else its entries): each alternative counts
+            operands += [v for _g, v in a[1]] if a[0] == "phi" else [a]
+        for a in list(operands):
+            if a[0] == "yields":
+                # the entries are yielded by a helper generator: every yielded value counts (with the condition of its yield)
+                for g, v in a[1]:
+                    if v[0] == "elem" and _unwrap_iterable(v[1]) == entries:
+                        extra = [x for x in sorted(atoms_of(g)) if x not in {y for c in d.pc for y in atoms_of(c)}]
+                        (bad if extra else good).append(f"an entry is only handed on if `{extra[0][:120]}`" if extra else "each entry")
+        for a in operands:
+            src = _unwrap_iterable(a)
+            if src == entries:
+                good.append("all entries")
+            elif src[0] == "comp" and len(src[3]) == 1 and _unwrap_iterable(src[3][0][1]) == entries:
+                tgt, _it, conds = src[3][0]
+                if not [c for c in conds if c != TRUE]:
+                    good.append("all entries")  # possibly mapped to something that carries the entry
+                else:
+                    bad.append(f"only the entries with `{' and '.join(show_formula(c) for c in conds if c != TRUE) or show(src[2], 60)}` are handed on")
+            elif a[0] == "elem" and _unwrap_iterable(a[1]) == entries:
+                extra = [c for c in e.pc if c not in d.pc]
+                loops = [l for l in e.loops if l not in d.loops]
+                early = [l for l in loops if l.early_exit and not l.exits_only_when_exhausted()]
+                if early:
+                    bad.append(f"the loop `{_loop_text(early[0])}` over the entries can be left early")
+                elif extra:
+                    bad.append(f"an entry is only handed on if `{show_formula(f_and(extra))[:140]}`")
+                else:
+                    good.append("each entry")
+    if good:
+        return True, "every entry of a visited directory is handed on"
+    if bad:
+        return False, f"not every entry of a visited directory is visited: {bad[0]}"
+    return None, "cannot see where the entries of a directory are handed on"
+
+
+def _file_of(e: Event) -> Term | None:
+    """The path of the file a read / parse event is about."""
+    if e.name in ("read_text", "read_bytes") and e.recv is not None:
+        return e.recv
+    if e.func == ("builtin", "open") or e.func[0] == "lib" and e.func[1].endswith(".open"):
+        return e.arg(0, "file")
+    # ast.parse(<text read from a file>): the file inside the argument
+    a = e.arg(0, "source")
+    if a is None:
+        return None
+    for x in subterms(a):
+        if x[0] == "call" and (x[1] == ("builtin", "open") or x[1][0] == "lib" and x[1][1].endswith(".open")) and x[2]:
+            return x[2][0]
+        if x[0] == "mcall" and x[2] in ("read_text", "read_bytes"):
+            return x[1]
+    return None
+
+
+def _readable(f: Formula) -> Formula:
+    """The guard as shown in messages: without the state of the work list and the case distinctions of the name computation."""
+    drop = {a: True for a in atoms_of(f) if a not in ("ISDIR", "EXCL", "PY") and (a.startswith("bool(<") or "relative_to" in a or ".name" in a)}
+    return simplify(substitute(f, drop)) if drop else f
+
+
+def _loop_text(loop) -> str:
+    from core.loader import header
+
+    return header(loop.node)
